@@ -670,6 +670,14 @@ def run_format_error_unit(unit, res, c, progress):
                         if ok and name.startswith("long-message") and err.args[0] not in r:
                             ok = False
                             out = ("val", "the text lacks part of the exception's message (%d characters)" % len(err.args[0]))
+                        if ok and name == "carried-through-asynq" and not hl:
+                            # the traceback that is PASSED is the one that is formatted: it starts in the plain function
+                            # that called into asynq; without one, the glued traceback of the tasks is used
+                            c["format_error_frame_checks"] = c.get("format_error_frame_checks", 0) + 1
+                            missing = [fn_ for fn_ in ((["in carried"] if tb is not None else []) + ["in outer", "in inner"]) if fn_ not in r]
+                            if missing:
+                                ok = False
+                                out = ("val", "frames missing from the formatted error: %r" % (missing,))
                     except BaseException as e:
                         ok = False
                         out = ("exc", exc_desc(e))
